@@ -39,6 +39,9 @@ func (a *sigAttr) field(i int) *int {
 func v(x uint64) Arg   { return Arg{Value: x, IsPtr: x > pointerFloor && x < pointerCeiling} }
 func agg(f ...Arg) Arg { return Arg{IsAggregate: true, Fields: Args{Values: f}} }
 
+// aggE is an aggregate whose field list is elided: {f..., ...}
+func aggE(f ...Arg) Arg { return Arg{IsAggregate: true, Fields: Args{Values: f, Elided: true}} }
+
 // sigArgShapes is the argument-list dimension: pairs differ in a plain value,
 // in a pointer value, in pointer-ness, in "_", in aggregate shape, in elision,
 // at top level, inside an aggregate and inside a nested aggregate.
@@ -61,6 +64,13 @@ var sigArgShapes = []func() Args{
 	func() Args { return Args{Values: []Arg{{IsOffsetTooLarge: true}}} },
 	func() Args { return Args{Values: []Arg{v(1), v(2)}} },
 	func() Args { return Args{Values: []Arg{agg(v(1)), v(2)}} },
+	func() Args { return Args{Values: []Arg{aggE(v(1))}} },
+	func() Args { return Args{Values: []Arg{aggE(v(2))}} },
+	func() Args { return Args{Values: []Arg{aggE(v(ptr1))}} },
+	func() Args { return Args{Values: []Arg{agg(aggE(v(ptr2)))}} },
+	func() Args { return Args{Values: []Arg{v(1)}, Processed: []string{"true"}} },
+	func() Args { return Args{Values: []Arg{v(2)}, Processed: []string{"true"}} },
+	func() Args { return Args{Values: []Arg{v(ptr1)}, Processed: []string{"*T(0xc000012340)"}} },
 }
 
 func mkCall(fn, file string, line int, args Args) Call {
@@ -142,24 +152,31 @@ func sigUniverse(maxDev int, pairOK func(i, j int) bool) []sigAttr {
 }
 
 func aggUniverse(r *h.Run) []sigAttr {
+	// every single-attribute deviation, every argument shape combined with every
+	// sleep / lock modifier (so that "similar but not equal" members exist for every
+	// shape), lock x sleep, and - thorough - state x args.
 	const argsDim = 9
-	if r.Thorough() {
-		// singles + (args x {locked, sleep, state}) + (locked x sleep) + (line x args restricted)
-		return sigUniverse(2, func(i, j int) bool {
-			return (j == argsDim && (i == 2 || i == 3 || i == 0)) || (i == 2 && j == 3)
-		})
-	}
-	// quick: singles + (locked x sleep) + (sleep x args) restricted to the first 6 argument shapes
-	u := sigUniverse(2, func(i, j int) bool { return i == 2 && j == 3 })
-	for _, sl := range []int{1, 2} {
-		for _, ar := range []int{3, 4, 5, 8} {
-			u = append(u, sigAttr{sleep: sl, args: ar})
+	u := sigUniverse(2, func(i, j int) bool {
+		if j == argsDim && (i == 2 || i == 3) {
+			return true
 		}
+		if i == 2 && j == 3 {
+			return true
+		}
+		return r.Thorough() && j == argsDim && i == 0
+	})
+	if r.Thorough() {
+		return u
 	}
-	for _, ar := range []int{3, 4, 8} {
-		u = append(u, sigAttr{locked: 1, args: ar})
+	// quick: drop the second sleep value combined with argument shapes
+	var out []sigAttr
+	for _, a := range u {
+		if a.sleep == 2 && a.args != 0 {
+			continue
+		}
+		out = append(out, a)
 	}
-	return u
+	return out
 }
 
 // --- reference: R-part key --------------------------------------------------
@@ -336,6 +353,7 @@ type aggCase struct {
 	perm  []int // arrival order: position -> member
 	first int   // position flagged First
 	named bool
+	aggs  [4]*Aggregated // aggregations of this case at the four levels, when already computed
 }
 
 func (c *aggCase) key() string {
@@ -449,6 +467,19 @@ func runAggCheck(t *testing.T, prop string, oracle aggOracle, rule string, nontr
 	for _, a := range u {
 		uni = append(uni, a.String())
 	}
+	ptrShape := map[int]bool{}
+	for i, f := range sigArgShapes {
+		a := f()
+		a.walk(func(x *Arg) {
+			if x.IsPtr {
+				ptrShape[i] = true
+			}
+		})
+	}
+	relKeys := make([]string, len(u))
+	for i, a := range u {
+		relKeys[i] = refKey(a.build(false), AnyValue)
+	}
 	perms := map[int][][]int{}
 	for n := 1; n <= maxSize; n++ {
 		perms[n] = permutations(n)
@@ -458,53 +489,83 @@ func runAggCheck(t *testing.T, prop string, oracle aggOracle, rule string, nontr
 			return
 		}
 		n := len(idx)
+		if n == 4 && !r.Thorough() && !threeRelated(u, idx, relKeys) {
+			return
+		}
+		hasPtr := false
+		for _, i := range idx {
+			if ptrShape[u[i].args] {
+				hasPtr = true
+			}
+		}
 		for _, named := range []bool{false, true} {
-			if named && n < 2 {
+			if named && (n < 2 || !hasPtr) {
 				continue
 			}
 			for pi, perm := range perms[n] {
 				firsts := []int{0}
-				if n <= 3 {
+				if pi%2 == 1 && n > 1 {
+					firsts = []int{n - 1}
+				}
+				if n <= 2 {
 					firsts = firsts[:0]
 					for f := 0; f < n; f++ {
 						firsts = append(firsts, f)
 					}
-				} else if pi%2 == 1 {
-					firsts = []int{n - 1}
 				}
 				for _, first := range firsts {
 					c := &aggCase{u: u, idx: append([]int{}, idx...), perm: perm, first: first, named: named}
 					var outcome strings.Builder
 					s := c.snapshot()
+					var aggs [4]*Aggregated
+					failed := false
 					for level := ExactFlags; level <= AnyValue; level++ {
-						lv := level
-						viol := r.Check(func() *h.Viol {
-							s := c.snapshot()
-							a, p := safeAggregate(s, lv)
-							if p != "" {
-								return &h.Viol{Fingerprint: prop + "/panic-in-Aggregate", Summary: "Aggregate panicked: " + firstLine(p), Key: c.key() + " " + levelNames[lv], Observed: p, Expected: "no panic", Extra: map[string]any{"case": c.describe()}}
-							}
-							vv := oracle(c, s, lv, a)
-							if vv != nil {
-								vv.Key = c.key() + " " + levelNames[lv]
-								if vv.Extra == nil {
-									vv.Extra = map[string]any{}
+						a, p := safeAggregate(s, level)
+						if p != "" {
+							failed = true
+							break
+						}
+						aggs[level] = a
+					}
+					c.aggs = aggs
+					for level := ExactFlags; level <= AnyValue && !failed; level++ {
+						if oracle(c, s, level, aggs[level]) != nil {
+							failed = true
+						}
+					}
+					if failed {
+						// slow path: re-execute from scratch, 5x, per level
+						for level := ExactFlags; level <= AnyValue; level++ {
+							lv := level
+							r.Check(func() *h.Viol {
+								s := c.snapshot()
+								a, p := safeAggregate(s, lv)
+								if p != "" {
+									return &h.Viol{Fingerprint: prop + "/panic-in-Aggregate", Summary: "Aggregate panicked: " + firstLine(p), Key: c.key() + " " + levelNames[lv], Observed: p, Expected: "no panic", Extra: map[string]any{"case": c.describe()}}
 								}
-								vv.Extra["case"] = c.describe()
-								vv.Extra["level"] = levelNames[lv]
-								vv.Kind = "agg"
-							}
-							return vv
-						})
-						if viol == nil {
-							if a, p := safeAggregate(s, lv); p == "" {
-								var bk []string
-								for _, b := range a.Buckets {
-									bk = append(bk, fmt.Sprintf("%v%v|", b.IDs, b.First))
+								c.aggs = [4]*Aggregated{}
+								vv := oracle(c, s, lv, a)
+								if vv != nil {
+									vv.Key = c.key() + " " + levelNames[lv]
+									if vv.Extra == nil {
+										vv.Extra = map[string]any{}
+									}
+									vv.Extra["case"] = c.describe()
+									vv.Extra["level"] = levelNames[lv]
+									vv.Kind = "agg"
 								}
-								sort.Strings(bk)
-								outcome.WriteString(strings.Join(bk, "") + ";")
+								return vv
+							})
+						}
+						outcome.WriteString("violation")
+					} else {
+						for _, a := range aggs {
+							var bk []string
+							for _, b := range a.Buckets {
+								bk = append(bk, fmt.Sprintf("%v%v|", b.IDs, b.First))
 							}
+							sort.Strings(bk)
+							outcome.WriteString(strings.Join(bk, "") + ";")
 						}
 					}
 					r.Record(c.key(), nontrivial(c, s), outcome.String())
@@ -664,7 +725,7 @@ func describeBuckets(a *Aggregated) string {
 
 func TestVerifC04(t *testing.T) {
 	runAggCheck(t, "C04", oracleC04,
-		"all multisets of <=4 goroutines over the signature-variant universe x all arrival orders x first-flag positions x named/unnamed x 4 levels; non-trivial = >=2 goroutines; distinct = (multiset, order, first, named)",
+		"all multisets of <=3 goroutines, and all multisets of 4 in which >=3 are similar at AnyValue (thorough: all multisets of 4), over the signature-variant universe x all arrival orders x first-flag positions x named/unnamed x 4 levels; non-trivial = >=2 goroutines; distinct = (multiset, order, first, named)",
 		func(c *aggCase, s *Snapshot) bool { return len(c.idx) >= 2 })
 }
 
@@ -674,8 +735,13 @@ func oracleC05(c *aggCase, s *Snapshot, level Similarity, a *Aggregated) *h.Viol
 	// expected partition from the reference key
 	byKey := map[string][]int{}
 	keyOf := map[int]string{}
-	for _, g := range s.Goroutines {
-		k := refKey(g, level)
+	for pos, g := range s.Goroutines {
+		ck := [3]int{c.idx[c.perm[pos]], b2i(c.named), int(level)}
+		k, ok := refKeyCache[ck]
+		if !ok {
+			k = refKey(g, level)
+			refKeyCache[ck] = k
+		}
 		byKey[k] = append(byKey[k], g.ID)
 		keyOf[g.ID] = k
 	}
@@ -701,13 +767,13 @@ func oracleC05(c *aggCase, s *Snapshot, level Similarity, a *Aggregated) *h.Viol
 	}
 	// refinement: level i refines level i+1 (checked once, at the finest level)
 	if level == ExactFlags {
-		p0 := partitionOf(s, ExactFlags)
+		p0 := partitionOfC(c, s, ExactFlags)
 		if p0 == nil {
 			return nil
 		}
 		prev := p0.groups
 		for l := ExactLines; l <= AnyValue; l++ {
-			cur := partitionOf(s, l)
+			cur := partitionOfC(c, s, l)
 			if cur == nil {
 				break
 			}
@@ -727,10 +793,14 @@ func oracleC05(c *aggCase, s *Snapshot, level Similarity, a *Aggregated) *h.Viol
 	return nil
 }
 
-func partitionOf(s *Snapshot, l Similarity) *partitionT {
-	a, p := safeAggregate(s, l)
-	if p != "" {
-		return nil
+func partitionOfC(c *aggCase, s *Snapshot, l Similarity) *partitionT {
+	a := c.aggs[l]
+	if a == nil {
+		var p string
+		a, p = safeAggregate(s, l)
+		if p != "" {
+			return nil
+		}
 	}
 	pt := &partitionT{of: map[int]int{}}
 	for i, b := range a.Buckets {
@@ -818,4 +888,25 @@ func TestVerifC12(t *testing.T) {
 			}
 			return false
 		})
+}
+
+// threeRelated: at least three members of the multiset share the AnyValue key.
+func threeRelated(u []sigAttr, idx []int, keys []string) bool {
+	cnt := map[string]int{}
+	for _, i := range idx {
+		cnt[keys[i]]++
+		if cnt[keys[i]] >= 3 {
+			return true
+		}
+	}
+	return false
+}
+
+var refKeyCache = map[[3]int]string{}
+
+func b2i(b bool) int {
+	if b {
+		return 1
+	}
+	return 0
 }
